@@ -455,7 +455,7 @@ fn recognise(ts: &TokenStream) -> Result<Vec<&'static str>, String> {
             match seg.get(j) {
                 Some(TokenTree::Ident(id)) => {
                     let name = id.to_string();
-                    if tok::KEYWORDS.contains(&name.as_str()) && !(segs_seen == 0 && j == 0 && ["crate", "self", "super"].contains(&name.as_str())) {
+                    if tok::KEYWORDS.contains(&name.as_str()) && !(segs_seen == 0 && ["crate", "self", "super"].contains(&name.as_str())) {
                         return Err(format!("KEYWORD item {i}: keyword `{name}` as a path segment"));
                     }
                     j += 1;
@@ -628,7 +628,8 @@ fn splitting_case(rng: &mut Rng, c: &mut Collector) {
 
 /// fixed lexical edge cases named in the property text
 fn edge_cases(c: &mut Collector) {
-    let cases: [(&str, Option<&[&str]>); 12] = [
+    let cases: [(&str, Option<&[&str]>); 13] = [
+        ("::crate::x, ::self::y = 1, ::super::z(a)", Some(&["path", "nv", "list"])),
         ("", Some(&[])),
         ("true", Some(&["lit"])),
         ("true, false", Some(&["lit", "lit"])),
